@@ -19,7 +19,9 @@ import (
 	"os"
 	"os/exec"
 	"path/filepath"
+	"sort"
 	"strings"
+	"sync"
 	"syscall"
 	"time"
 
@@ -28,7 +30,7 @@ import (
 )
 
 type sszStats struct {
-	Ops, Roots, Baked, Tasks, Shas int
+	Ops, Roots, Baked, Tasks, Shas, ConcurrentFirst int
 	OutcomeHist                    map[string]int
 	Monitors                       []string
 	Samples                        []string
@@ -174,6 +176,42 @@ func runSszDiff(outDir string, seed int64, tier string) {
 	fsum := sha256.Sum256([]byte(wc_rotation.ValidatorsIndexes))
 	fields := strings.Split(wc_rotation.ValidatorsIndexes, "\n")
 	emit("bakedfile", fmt.Sprintf("%d %s %s", len(fields), hex.EncodeToString(fsum[:]), hex.EncodeToString(fsum[:])))
+	// the FIRST baked lookups of this process are made by 16 goroutines at once (several nodes in one process, an API request
+	// beside the poller): whatever the implementation keeps between calls is filled under contention. What each goroutine got is
+	// written down as ordinary `baked` operations (the model must agree), and every position is compared with the model below,
+	// in this same process
+	{
+		type got struct {
+			pos int
+			ob  string
+		}
+		var wg sync.WaitGroup
+		var mu sync.Mutex
+		var all []got
+		start := make(chan struct{})
+		for g := 0; g < 16; g++ {
+			wg.Add(1)
+			go func(g int) {
+				defer wg.Done()
+				<-start
+				var mine []got
+				for k := 0; k < 24; k++ {
+					pos := (g*1163 + k*4673) % 18640
+					mine = append(mine, got{pos, safeBaked(pos)})
+				}
+				mu.Lock()
+				all = append(all, mine...)
+				mu.Unlock()
+			}(g)
+		}
+		close(start)
+		wg.Wait()
+		sort.Slice(all, func(i, j int) bool { return all[i].pos < all[j].pos })
+		for _, x := range all {
+			emit(fmt.Sprintf("baked %d", x.pos), x.ob)
+			st.ConcurrentFirst++
+		}
+	}
 	// sha-256 model vs crypto/sha256
 	for i := 0; i < 300; i++ {
 		n := rng.Intn(200)
